@@ -26,9 +26,13 @@
 // Suggested minimal fix: the bytes credited by closeStream must not be
 // credited again by later reads, e.g. let closeStream remember the amount it
 // returned (st.body "pre-refunded" counter decremented by requestBody.Read
-// before it reports n to noteBodyReadFromHandler), or discard the buffered
-// data on a reset (pipe.BreakWithError instead of CloseWithError) so that it
-// cannot be read any more.
+// before it reports n to noteBodyReadFromHandler; the counter has to live in
+// the pipe and be updated under its mutex, a serve-loop-only counter would
+// swallow the bodyReadMsg of a Read that completed just before the close).
+// Simply discarding the buffered data in closeStream (p.BreakWithError after
+// p.CloseWithError) removes the double refund but changes what handlers see
+// and breaks TestServer_Request_Post_Body_ContentLength_TooSmall (tried in a
+// scratch tree), so no small fix is proposed.
 
 package http2_test
 
